@@ -56,7 +56,9 @@ def eval_doc(args):
             hit = False
             for e in errs:
                 if e.path is None: bad.append((fault, f'error without path: {e.reason[:60]}')); continue
-                sel = elementpath.select(r2, e.path, namespaces=NS, strict=False)
+                # the path is evaluated with the namespace map the error itself carries (ElementTree nodes keep no declarations, so the map given to the call is what it has)
+                try: sel = elementpath.select(r2, e.path, namespaces=dict(e.namespaces or NS), strict=False)
+                except Exception as x: bad.append((fault, f'path {e.path} cannot be evaluated with the namespaces of the error: {type(x).__name__}')); continue
                 if len(sel) != 1: bad.append((fault, f'path {e.path} selects {len(sel)} nodes'))
                 elif sel[0] is not e.elem: bad.append((fault, f'path {e.path} selects another node than error.elem'))
                 if e.elem in near: hit = True
@@ -77,7 +79,7 @@ def run(tier, seed, open_findings):
     res = pmap(eval_doc, jobs, chunk=1)
     fails = [dict(case=dict(doc=r['doc'], ver=r['ver'], fault=b[0]), observed=b[1], required='invalid; unique path to error.elem; an error at the node or its parent; none outside chain/subtree') for r in res for b in r['bad']]
     cases = sum(r['cases'] for r in res)
-    return [run_all11(), result('C19.single_fault_location', f'{len(docs)} valid documents x every node x {len(FAULTS)} single-node faults x 2 classes', cases, fails, samples=[dict(doc=docs[0][:160], fault='bad_text')], distinct=cases)]
+    return [run_nested(), run_all11(), result('C19.single_fault_location', f'{len(docs)} valid documents x every node x {len(FAULTS)} single-node faults x 2 classes', cases, fails, samples=[dict(doc=docs[0][:160], fault='bad_text')], distinct=cases)]
 
 
 ALL11 = '<xs:schema xmlns:xs="http://www.w3.org/2001/XMLSchema"><xs:element name="r"><xs:complexType><xs:sequence><xs:element name="g" maxOccurs="unbounded"><xs:complexType><xs:all>' \
@@ -115,7 +117,44 @@ def run_all11():
     return result('C19.xsd11_all_missing_occurrence', f'{len(docs)} documents of an XSD 1.1 all group with repeating particles x every removal of a required occurrence', cases, fails, exhaustive=True, samples=[dict(doc=docs[0])], distinct=cases)
 
 
+NESTED_DOCS = [
+    # a fresh prefix declared on an inner element, a model error inside its scope
+    '<t:r xmlns:t="urn:t"><t:item id="i0" code="0"><t:name>n</t:name><t:qty>1</t:qty><p:sub xmlns:p="urn:t"><p:leaf>1</p:leaf><p:bogus/></p:sub></t:item></t:r>',
+    '<t:r xmlns:t="urn:t"><t:item id="i0" code="0"><t:name>n</t:name><t:qty>1</t:qty></t:item><p:item xmlns:p="urn:t" id="i1" code="1"><p:qty>1</p:qty></p:item></t:r>',
+    # the root prefix rebound to another namespace on an element that a strict wildcard admits; a sibling with the same local name in the target namespace comes first
+    '<t:r xmlns:t="urn:t"><t:item id="i0" code="0"><t:name>n</t:name><t:qty>1</t:qty><t:sub><t:leaf>1</t:leaf></t:sub><t:sub xmlns:t="urn:o"><t:leaf>x</t:leaf></t:sub></t:item></t:r>',
+    # a default namespace declared below the root
+    '<t:r xmlns:t="urn:t"><item xmlns="urn:t" id="i0" code="0"><name>n</name><qty>0</qty><sub><leaf>q</leaf><extra/></sub></item></t:r>',
+    '<t:r xmlns:t="urn:t"><t:item id="i0" code="0" xmlns:q="urn:t"><q:name>n</q:name><q:qty>1</q:qty><q:sub codeRef="9"><q:leaf>1</q:leaf><q:leaf>2</q:leaf><q:leaf>3</q:leaf><q:leaf>4</q:leaf></q:sub></t:item></t:r>',
+]
+
+
+def eval_nested(args):
+    """documents given as TEXT, with namespace declarations below the root: the path of every error, evaluated with the namespace map the error carries, selects exactly error.elem"""
+    ver, doc = args
+    import elementpath, xmlschema
+    s = _S.get(ver) or _S.setdefault(ver, _cls(ver)(docgen.schema_for(ver)))
+    res = xmlschema.XMLResource(doc); bad = []
+    errs = list(s.iter_errors(res))
+    for e in errs:
+        if e.path is None or e.elem is None: continue
+        try: sel = elementpath.select(res.root, e.path, namespaces=dict(e.namespaces or {}), strict=False)
+        except Exception as x: bad.append(f'path {e.path} cannot be evaluated with the namespaces of the error {dict(e.namespaces or {})}: {type(x).__name__}'); continue
+        if len(sel) != 1 or sel[0] is not e.elem: bad.append(f'path {e.path} with {dict(e.namespaces or {})} selects {len(sel)} node(s), not exactly error.elem ({e.reason[:50]})')
+    return dict(ver=ver, doc=doc, errors=len(errs), bad=bad)
+
+
+def run_nested():
+    res = [eval_nested((ver, d)) for d in NESTED_DOCS for ver in ('1.0', '1.1')]
+    fails = [dict(case=dict(nested_decl=True, ver=r['ver'], doc=r['doc']), observed=b, required='the path selects exactly error.elem under the namespace map of the error') for r in res for b in r['bad']]
+    if any(r['errors'] == 0 for r in res): fails.append(dict(case=dict(nested_decl=True, ver='1.0', doc='(harness)'), observed='a document of the family has no error at all', required='every document of the family is invalid'))
+    return result('C19.paths_under_nested_declarations', f'{len(NESTED_DOCS)} invalid text documents with prefixes declared, rebound or defaulted below the root x 2 classes: every error path resolves to its element with the error\'s own namespaces',
+                  sum(r['errors'] for r in res), fails, exhaustive=True, samples=[dict(doc=NESTED_DOCS[0][:140])])
+
+
 def replay(check_name, case):
+    if case.get('nested_decl'):
+        r = eval_nested((case['ver'], case['doc'])); return dict(ok=not r['bad'], observed=r['bad'][:2], required='path selects error.elem')
     if case.get('all11'):
         r = eval_all11(case['doc']); return dict(ok=not r['bad'], observed=r['bad'][:2], required='the missing occurrence is reported at its parent')
     r = eval_doc((case['ver'], case['doc']))
